@@ -9,6 +9,14 @@ generated position
     with a last burst of data in the same quantum) | EPIPE on write | ERROR readiness event (with /
     without an error object) | connection refused (connect mode)
 
+Caller-side cancellation is a generated operation: ``("cancel", k)`` cancels the k-th pending read / write /
+connect future (what asyncio.wait_for does on timeout), anywhere before the close and, in a third of the
+cases, right before it with another write queued behind.  close() itself must not raise, no exception
+may escape the event handler, every non-cancelled pending future is still settled exactly once, the
+cancelled one stays cancelled, and the close callback still runs once.  A deterministic grid (part
+"grid": pending read / 0-2 writes / connect x which one is cancelled x callback on/off x all 9 causes =
+270 cases) makes this independent of the seed.
+
 and a tail of post-close operations (reads of each kind, write, second close(), connect()).  A read
 with max_bytes can additionally close the stream by itself (UnsatisfiableReadError) at any point.
 The loop is run to quiescence (virtual time) after every step.  The oracle is anchored at the first
@@ -65,12 +73,17 @@ Sensitivity (quick tier, seed 1, scratch copies of tornado/iostream.py; every mu
   M6  _signal_closed: connect future not settled                                 -> C13.connect_future_never_completes
   M8  close(exc_info=tuple): ``self.error = exc_info[0]``                        -> C13.stream_error_not_the_cause
   M9  _handle_events: ERROR event no longer schedules close()                    -> C13.close_event_did_not_close_stream
+  M10 _signal_closed: ``except asyncio.CancelledError`` around future.exception() -> ``except Exception``
+      (a future its caller cancelled makes close() raise CancelledError partway: later futures and the
+      close callback are never settled)  -> grid + main at seeds 1,2,3: C13.close_raised (local causes),
+      C13.event_handler_raised (FIN / RST / EPIPE), C13.write_future_never_completes (ERROR event)
 The proposed patch for F-C13-stale-read-state was applied to a scratch copy: both replays and the quick
 tier then pass without any KNOWN-FINDING line.
 
 Not implemented from DESIGN: close positions are sampled by Hypothesis in both tiers (no exhaustive
 "all positions x 5k programs" grid); SSL handshake futures (_ssl_connect_future) are out of scope.
 """
+import asyncio
 import errno
 import socket as _socket
 
@@ -89,7 +102,9 @@ RULE = (
     "connected) x one close cause of 9 kinds at a generated position (optionally with a data burst in the "
     "same quantum) x <=6 post-close ops (read of each kind, write, close again, connect) x "
     "read_chunk_size {1,3,64,4096} x connect mode on/off; non-trivial = the stream closes while >=1 "
-    "read, write or connect future is pending; distinct = SHA-1 of the case"
+    "read, write or connect future is pending; distinct = SHA-1 of the case. Pre-close ops include "
+    "caller-side cancel of the k-th pending future; plus an enumerated grid of 270 cases (pending kinds x "
+    "cancelled one x callback x cause)"
 )
 ASSUMPTIONS = [
     "MemoryIOStream plays the kernel faithfully (level-triggered readiness, FIN/RST after queued data, "
@@ -176,6 +191,8 @@ _SMALL_MB_READ = st.one_of(
     st.tuples(st.just("until"), st.integers(0, len(M.DELIMS) - 1), st.tuples(st.just("abs"), st.sampled_from([1, 2, 3]))),
     st.tuples(st.just("regex"), st.integers(0, len(M.REGEXES) - 1), st.tuples(st.just("abs"), st.sampled_from([1, 2, 3]))),
 )
+_CANCEL_K = st.integers(0, 3)
+_CANCEL_LAST = st.sampled_from([False, False, True])
 _POST_KIND = st.sampled_from(["read", "read", "read", "write", "close2", "connect", "readclose"])
 
 
@@ -188,7 +205,7 @@ def case_s(draw):
     pre = []
     si = 0
     kinds = draw(st.lists(st.sampled_from(["feed", "feed", "read", "read", "write", "write", "grant", "connected",
-                                           "read_small_mb"]), max_size=8))
+                                           "read_small_mb", "cancel"]), max_size=8))
     for k in kinds:
         if k == "feed":
             pre.append(("feed", draw(burst)))
@@ -202,11 +219,19 @@ def case_s(draw):
             pre.append(("write", draw(_WSIZE)))
         elif k == "grant":
             pre.append(("grant", draw(_GRANT)))
+        elif k == "cancel":
+            pre.append(("cancel", draw(_CANCEL_K)))
         elif connect:
             pre.append(("connected",))
     if si < len(specs) and draw(_BOOL):
         pre.append(("read", specs[si]))  # a read is (probably) pending when the close event lands
         si += 1
+    if draw(_CANCEL_LAST):
+        # the caller gives up on one pending operation (what asyncio.wait_for does on timeout) right before
+        # the close event, usually with another write still queued behind it
+        if draw(_BOOL):
+            pre.append(("write", draw(_WSIZE)))
+        pre.append(("cancel", draw(_CANCEL_K)))
     post = []
     for k in draw(st.lists(_POST_KIND, max_size=6)):
         if k == "read":
@@ -262,6 +287,39 @@ async def scenario(ctx, case, labels, out):
 
     def pulled():
         return S["fed"] - sum(len(x) for x in s.inbound)
+
+    loop_errors = []
+
+    def on_loop_exception(loop, context):
+        exc = context.get("exception")
+        if isinstance(exc, asyncio.CancelledError):
+            # BaseIOStream.write attaches ``lambda f: f.exception()`` to its future; when the caller cancels
+            # that future the lambda raises CancelledError inside the loop, which asyncio reports here
+            # (log noise only; outside the statement) - labelled, not asserted
+            labels.add("cancelled_write_future_logs_callback_error")
+            return
+        loop_errors.append(repr(exc) + " " + str(context.get("message")))
+
+    asyncio.get_running_loop().set_exception_handler(on_loop_exception)
+
+    def do_close(*a, **kw):
+        """close() settles futures; it must not itself raise (e.g. a CancelledError leaking out of the
+        settlement loop would leave the remaining futures and the close callback unsettled)"""
+        try:
+            s.close(*a, **kw)
+        except (KeyboardInterrupt, SystemExit):
+            raise
+        except BaseException as e:
+            ctx.fail(P + ".close_raised", {"exc": repr(e), "cause": case["cause"]})
+
+    def pump():
+        try:
+            return s.pump_once()
+        except (KeyboardInterrupt, SystemExit):
+            raise
+        except BaseException as e:
+            S["handler_exc"] = repr(e)
+            return True
 
     def all_futures():
         return [r.fut for r in reads if r.fut is not None] + [f.fut for f in futs]
@@ -375,17 +433,22 @@ async def scenario(ctx, case, labels, out):
             unsat_expected = M.expect(rd.spec, rem, True, rd.mb)[0] == "unsat"
         if not (err_ok(e0) or (unsat_expected and isinstance(e0, UnsatisfiableReadError))):
             ctx.fail(P + ".stream_error_not_the_cause", {"error": repr(e0), "cause": case["cause"]})
-        pend = []
+        pend, canc = [], []
         if rd is not None and rd.fut is not None and not rd.post:
-            pend.append("read")
+            (canc if getattr(rd, "cancelled_by_caller", False) else pend).append("read")
         for f in futs:
+            tgt = canc if getattr(f, "cancelled_by_caller", False) else pend
             if f.kind == "write" and not f.done_before and not f.post:
-                pend.append("write")
+                tgt.append("write")
             if f.kind == "connect" and not f.connected:
-                pend.append("connect")
+                tgt.append("connect")
         for k in set(pend):
             labels.add("pending_" + k)
-        out["nontrivial"] = bool(pend)
+        for k in set(canc):
+            labels.add("cancelled_pending_" + k)
+        if canc and (pend or case["cb"]):
+            labels.add("cancelled_with_other_to_settle")
+        out["nontrivial"] = bool(pend or canc)
         labels.add("closed_by_" + ("unsat" if isinstance(e0, UnsatisfiableReadError) else
                                     "final_local" if S.get("final_local") else S.get("cause_eff", "before_cause")))
         # writes / connect pending at close
@@ -399,6 +462,12 @@ async def scenario(ctx, case, labels, out):
 
     def check_nonread(f, e0, at_close):
         d = {"kind": f.kind, "at_close": at_close}
+        if getattr(f, "cancelled_by_caller", False):
+            if not f.fut.cancelled():
+                ctx.fail(P + ".cancelled_future_changed", dict(d, fut=repr(f.fut)))
+            if f.calls != 1:
+                ctx.fail(P + ".future_callbacks_not_exactly_once", dict(d, calls=f.calls))
+            return
         if not f.fut.done():
             ctx.fail(P + "." + f.kind + "_future_never_completes", d)
             return
@@ -434,9 +503,11 @@ async def scenario(ctx, case, labels, out):
             ctx.fail(P + ".real_error", dict(d, real_error=repr(exc.real_error), stream_error=repr(e0)))
 
     async def quiesce():
-        ok = await vtime.settle(pump=s.pump_once)
+        ok = await vtime.settle(pump=pump)
         if not ok:
             ctx.fail(P + ".livelock", {})
+        if S.get("handler_exc"):
+            ctx.fail(P + ".event_handler_raised", {"exc": S.pop("handler_exc"), "cause": case["cause"]})
         if s.closed() and not S["closed_seen"]:
             # the read verdict below needs the close-time snapshot first
             on_closed_pending = True
@@ -445,6 +516,20 @@ async def scenario(ctx, case, labels, out):
         if on_closed_pending:
             on_closed()
         rd = cur[0]
+        if rd is not None and getattr(rd, "cancelled_by_caller", False):
+            # Tornado still carries the read out; its result is discarded
+            if not rd.fut.cancelled():
+                ctx.fail(P + ".cancelled_future_changed", {"read": rd.spec, "fut": repr(rd.fut)})
+            if s.closed() or not s.reading():
+                rem, ended = read_regime()
+                exp = M.expect(rd.spec, rem, ended, rd.mb)
+                if exp[0] == "data":
+                    S["cursor"] += len(exp[1])
+                elif exp[0] == "prefix":
+                    S["reads_off"] = True  # how much a discarded partial read consumed is unknown
+                S["clean"] = False
+                cur[0] = None
+            rd = None
         if rd is not None:
             rem, ended = read_regime()
             suffix = None
@@ -488,10 +573,10 @@ async def scenario(ctx, case, labels, out):
         # write bookkeeping while open
         if not s.closed():
             for f in futs:
-                if f.kind == "write" and f.fut.done() and not f.done_before:
+                if f.kind == "write" and f.fut.done() and not f.done_before and not f.fut.cancelled():
                     if f.fut.exception() is None and f.end <= len(s.wire):
                         f.done_before = True
-            if conn is not None and conn.fut.done() and conn.fut.exception() is None:
+            if conn is not None and conn.fut.done() and not conn.fut.cancelled() and conn.fut.exception() is None:
                 conn.connected = True
 
     def apply_cause(kind):
@@ -504,15 +589,15 @@ async def scenario(ctx, case, labels, out):
             return "connected_first"
         if s.closed():
             if kind.startswith("local"):
-                s.close()
+                do_close()
             return None
         if kind == "local":
             inflight.append(lambda e: e is None)
-            s.close()
+            do_close()
         elif kind in ("local_exc_inst", "local_exc_tuple"):
             E = ValueError("injected close reason")
             inflight.append(lambda e: e is E)
-            s.close(exc_info=E if kind == "local_exc_inst" else (ValueError, E, None))
+            do_close(exc_info=E if kind == "local_exc_inst" else (ValueError, E, None))
         elif kind in ("fin", "rst"):
             if case["cause_burst"]:
                 feed(case["cause_burst"])
@@ -531,7 +616,14 @@ async def scenario(ctx, case, labels, out):
             inflight.append(lambda e: e is err)
         elif kind in ("error_event", "error_event_none"):
             exc = OSError(errno.ETIMEDOUT, "injected") if kind == "error_event" else None
-            if s.fire_error(exc):
+            try:
+                fired = s.fire_error(exc)
+            except (KeyboardInterrupt, SystemExit):
+                raise
+            except BaseException as e:
+                S["handler_exc"] = repr(e)
+                fired = True
+            if fired:
                 inflight.append(lambda e: e is exc)
             else:
                 labels.add("error_event_no_handler")
@@ -555,6 +647,18 @@ async def scenario(ctx, case, labels, out):
         elif k == "connected":
             if connecting():
                 s.conn_state = "ok"
+        elif k == "cancel":
+            if s.closed():
+                return
+            pending = []
+            if cur[0] is not None and cur[0].fut is not None and not cur[0].fut.done():
+                pending.append(cur[0])
+            pending += [f for f in futs if not f.fut.done()]
+            if pending:
+                tgt = pending[op[1] % len(pending)]
+                tgt.fut.cancel()
+                tgt.cancelled_by_caller = True
+                labels.add("caller_cancelled_" + (tgt.kind if isinstance(tgt, Fut) else "read"))
         elif k == "close2":
             if not s.closed():  # the cause went unnoticed: this is the close
                 inflight.append(lambda e: e is None)
@@ -562,7 +666,7 @@ async def scenario(ctx, case, labels, out):
                 labels.add("close2_was_first_close")
             else:
                 labels.add("second_close")
-            s.close()
+            do_close()
         elif k == "connect":
             if connect_mode and s.closed():
                 labels.add("connect_after_close")
@@ -598,7 +702,7 @@ async def scenario(ctx, case, labels, out):
     if not s.closed():
         S["final_local"] = True
         inflight.append(lambda e: e is None)
-        s.close()
+        do_close()
         await quiesce()
     await quiesce()
 
@@ -607,6 +711,8 @@ async def scenario(ctx, case, labels, out):
     if cur[0] is not None:
         ctx.fail(P + ".read_never_completes", {"read": cur[0].spec, "when": "end of case"})
     for rd in reads:
+        if getattr(rd, "cancelled_by_caller", False) and not rd.fut.cancelled():
+            ctx.fail(P + ".cancelled_future_changed", {"read": rd.spec, "fut": repr(rd.fut)})
         if not rd.fut.done():
             ctx.fail(P + ".read_never_completes", {"read": rd.spec, "when": "end of case"})
         elif rd.calls != 1:
@@ -621,6 +727,8 @@ async def scenario(ctx, case, labels, out):
         ctx.fail(P + ".bytes_written_after_close", {"at_close": S["sent_at_close"], "now": len(s.wire)})
     if s.error is not e0:
         ctx.fail(P + ".stream_error_changed_after_close", {})
+    if loop_errors:
+        ctx.fail(P + ".exception_in_loop_callback", {"errors": loop_errors[:3]})
     lf = out.get("late_connect")
     if lf is not None and lf.done() and not lf.cancelled() and lf.exception() is None:
         ctx.fail(P + ".connect_after_close_succeeded", {})
@@ -632,9 +740,25 @@ def run_case(ctx, case):
     ctx.note(case, labels, out.get("nontrivial", False))
 
 
-PARTS = {"main": run_case}
+def grid_cases():
+    """Deterministic grid: which operations are pending (read / 0-2 writes / connect) x which one the caller
+    cancelled just before the close x close callback on/off x every close cause."""
+    for connect in (False, True):
+        shapes = [(0, 0), (0, 1), (0, 2)] if connect else [(1, 0), (0, 1), (1, 1), (0, 2), (1, 2)]
+        for nread, nwrite in shapes:
+            npend = nread + nwrite + (1 if connect else 0)
+            for k in range(npend):
+                for cb in (True, False):
+                    for cause in CAUSES:
+                        pre = [("read", ("bytes", 5, False))] * nread + [("write", 10)] * nwrite + [("cancel", k)]
+                        yield {"rcs": 64, "connect": connect, "cb": cb, "credit0": 0, "data": b"", "pre": pre,
+                               "cause": cause, "cause_burst": None, "post": [("write", 1), ("close2",)]}
+
+
+PARTS = {"main": run_case, "grid": run_case}
 
 
 def main(ctx):
     ctx.run_replays(PARTS)
+    ctx.enumerate(grid_cases(), run_case, name="grid")
     ctx.explore(case_s(), run_case, ctx.n(1000, 80000), name="main")
